@@ -20,7 +20,7 @@ META = dict(
                'scared.aes.selection_functions.encrypt:FirstSubBytes/LastSubBytes (+ expected key functions)', 'scared.des.selection_functions.encrypt:FirstSboxes/LastSboxes (+ expected key functions)',
                'scared.models:HammingWeight/Monobit', 'scared.discriminants:maxabs'],
     bounds=dict(quick='seeded instances (VERIF_SEED): AES-128/192/256 and DES keys, 32 plaintexts, one attacked word, 8 guesses containing the value of the expected-key function and the true round-key word; '
-                      'traces = model(real intermediate state under the true key, computed with the FIPS reference) + noise, noise = ANY vector in a 2- or 4-dimensional subspace with coefficients in [-0.1, 0.1] (CPA, NICV) resp. [-0.2, 0.2] (DPA) (symbolic); '
+                      'traces = [model(real intermediate state under the true key, computed with the FIPS reference) + noise, constant 0 (padding sample)], noise = ANY vector in a 2- or 4-dimensional subspace with coefficients in [-0.1, 0.1] (CPA, NICV) resp. [-0.2, 0.2] (DPA) (symbolic); '
                       'attack classes CPA (2 noise dimensions), DPA (4), NICV (2) through Container (two batches) -> selection function -> model -> distinguisher; '
                       'obligation: the statistic of the guess returned by the expected-key function strictly exceeds that of every other guess, for ALL noise vectors in the box',
                 thorough='more instances (3 seeds), 6 noise dimensions for CPA / DPA'),
@@ -49,7 +49,10 @@ EPSS = {'CPAAttack': 0.1, 'DPAAttack': 0.2, 'NICVAttack': 0.1}
 
 def jobs(tier, seed):
     seeds = [seed] if tier == 'quick' else [seed, seed + 1, seed + 2]
-    return [dict(name=f'{c}-{sf}-k{k}-{a}-s{s}', cipher=c, sf=sf, klen=k, attack=a, seed=s) for (c, sf, k) in INSTANCES for a in ATTACKS for s in seeds]
+    js = [dict(name=f'{c}-{sf}-k{k}-{a}-s{s}', cipher=c, sf=sf, klen=k, attack=a, seed=s) for (c, sf, k) in INSTANCES for a in ATTACKS for s in seeds]
+    # identity (Value) model: intermediate values up to 255 reach the distinguisher in their integer dtype
+    js += [dict(name=f'{c}-{sf}-k{k}-CPAAttack-value-s{seed}', cipher=c, sf=sf, klen=k, attack='CPAAttack', seed=seed, model='value') for (c, sf, k) in INSTANCES[:2]]
+    return js
 
 
 def instance(cipher, sfname, klen, seed, T=32):
@@ -199,8 +202,10 @@ def run_job(job):
         for t in e:
             ex.assume(z3.And(t >= -eps, t <= eps))
         dpa = attack.startswith('DPA')
-        leak = [(v & 1) if dpa else hw(v) for v in inst['inter']]
-        samples = S.from_terms([[z3.RealVal(leak[i]) + z3.Sum([e[j] * E.R(inst['basis'][j][i]) for j in range(nd)])] for i in range(T)], 'float64')
+        value_model = job.get('model') == 'value'
+        leak = [(v & 1) if dpa else (v if value_model else hw(v)) for v in inst['inter']]
+        # second sample: a constant (zero padding), where CPA / NICV are undefined (NaN) and must not disturb the scores
+        samples = S.from_terms([[z3.RealVal(leak[i]) + z3.Sum([e[j] * E.R(inst['basis'][j][i]) for j in range(nd)]), z3.RealVal(0)] for i in range(T)], 'float64')
         key_arr = S.const(rnp.array([inst['key']] * T, dtype='uint8'))
         texts = S.const(rnp.array(inst['texts'], dtype='uint8'))
         # guesses: the value of the real expected-key function for this word, the true round-key word, and seeded others
@@ -211,7 +216,7 @@ def run_job(job):
         G = [ekw] + ([inst['true_word']] if inst['true_word'] != ekw else []) + others
         G = G[:8]
         sf = getattr(sfmod, sfname)(guesses=rnp.array(G, dtype='uint8'), words=[w])
-        model = models.Monobit(0) if dpa else models.HammingWeight()
+        model = models.Monobit(0) if dpa else (models.Value() if value_model else models.HammingWeight())
         kw = dict(selection_function=sf, model=model, discriminant=disc.maxabs, precision='float64')
         if attack[:3] in ('NIC', 'SNR', 'ANO'):
             kw['partitions'] = list(range(9))
@@ -222,16 +227,19 @@ def run_job(job):
         finally:
             cont.set_batch_size(None)
         results = S._w(an.results)            # (guesses, words=1, samples=1)
-        ok_shape = tuple(results.shape) == (len(G), 1, 1)
+        ok_shape = tuple(results.shape) == (len(G), 1, 2)
         inputs = e
 
         def wit(what, g=None):
-            return lambda m: dict(kind='rank', cipher=cipher, sf=sfname, klen=klen, attack=attack, seed=seed, what_failed=what, guess=g, guesses=G, expected=ekw,
+            return lambda m: dict(kind='rank', cipher=cipher, sf=sfname, klen=klen, attack=attack, seed=seed, model=job.get('model'), what_failed=what, guess=g, guesses=G, expected=ekw,
                                   noise=[float(L.frac_of_model(m, t)) for t in e] + [0.0] * (NOISE_DIM - nd), key=dict(kind='rank', attack=attack, sf=sfname, klen=klen, what=what))
         pr.prove(z3.BoolVal(ok_shape), f'{attack} with {sfname} ({cipher}, {klen}-byte key): results have shape (guesses, words, samples)', wit('shape'))
         if not ok_shape:
             return
         pr.fallback = lambda goal: seeded_refute(goal, inputs, assumptions=list(ex.pc), tries=4)
+        sc = S._w(an.scores)
+        ok_sc = tuple(sc.shape) == (len(G), 1) and not E.is_special(sc.c[0, 0])
+        pr.prove(z3.BoolVal(bool(ok_sc)), f'{attack}/{sfname}: the score of the expected key is a number (the undefined statistic at the constant sample is ignored by the discriminant)', wit('score-defined', G[0]), sample=False)
 
         def stat(gi):
             """(numerator, positive denominator) of the quantity that ranks the guesses: squared statistic, sqrt-free."""
@@ -245,6 +253,9 @@ def run_job(job):
             if attack == 'DPAAttack':
                 return num * num, den * den, []
             return num, den, [den]
+        if E.is_special(results.c[0, 0, 0]):
+            pr.prove(z3.BoolVal(False), f'{attack}/{sfname}: the statistic of the expected key at the leaking sample is a number (it is {results.c[0, 0, 0]})', wit('statistic-defined', G[0]))
+            return
         n0, d0, pos0 = stat(0)
         for c_ in pos0:
             pr.prove(c_ > 0, f'{attack}/{sfname}: the denominator of the expected key\'s statistic is positive for all noise in the box', wit('denominator', G[0]), sample=False)
@@ -283,7 +294,8 @@ def replay(w):
     inst = instance(w['cipher'], w['sf'], w['klen'], w['seed'])
     T = len(inst['texts'])
     dpa = w['attack'].startswith('DPA')
-    leak = np.array([(v & 1) if dpa else hw(v) for v in inst['inter']], dtype='float64')
+    value_model = w.get('model') == 'value'
+    leak = np.array([(v & 1) if dpa else (v if value_model else hw(v)) for v in inst['inter']], dtype='float64')
     ea = EPSS[w['attack']]
     nd_ = DIMS[w['attack']]
     pad = lambda v: (list(v) + [0.0] * NOISE_DIM)[:NOISE_DIM]  # noqa: E731
@@ -292,9 +304,9 @@ def replay(w):
     G = w['guesses']
     ww = inst['w']
     for noise in tries:
-        x = (leak + sum(noise[j] * np.array(inst['basis'][j]) for j in range(NOISE_DIM))).reshape(T, 1)
+        x = np.stack([leak + sum(noise[j] * np.array(inst['basis'][j]) for j in range(NOISE_DIM)), np.zeros(T)], axis=1)
         sf = getattr(sfmod, w['sf'])(guesses=np.array(G, dtype='uint8'), words=[ww])
-        model = scared.Monobit(0) if dpa else scared.HammingWeight()
+        model = scared.Monobit(0) if dpa else (scared.Value() if value_model else scared.HammingWeight())
         kw = dict(selection_function=sf, model=model, discriminant=scared.maxabs, precision='float64')
         if w['attack'][:3] in ('NIC', 'SNR', 'ANO'):
             kw['partitions'] = list(range(9))
@@ -308,6 +320,8 @@ def replay(w):
             scared.set_batch_size(None)
         scores = np.array(an.scores).reshape(len(G))
         ek = int(np.array(sf.compute_expected_key(key=np.array(inst['key'], dtype='uint8')))[ww])
+        if np.isnan(scores).all():
+            return dict(reproduced=True, detail=f'{w["attack"]} / {w["sf"]} ({w["cipher"]}, noise {noise}): every score is NaN ({scores.tolist()})')
         best = int(np.nanargmax(scores))
         if G[best] != ek or np.sum(scores == scores[best]) > 1:
             return dict(reproduced=True, detail=f'{w["attack"]} / {w["sf"]} ({w["cipher"]}, {w["klen"]}-byte key, noise {noise}): best guess {G[best]:#x} (scores {scores.tolist()}) but the expected-key function gives {ek:#x} (true round-key word {inst["true_word"]:#x})')
